@@ -31,6 +31,7 @@ RULE = ('Each case = 1-4 generated probe directories (independent spike counts 4
 RULE += ' Added classes: probe folders whose given order is not their lexicographic order (imec2/imec10/..., right/left/mid/aux) or whose names hold glob metacharacters ([ ] *); calibrated fractional sampling rates; column-major .npy inputs in any probe; non-finite samples in a template (uncurated merges); history merge / split a cluster in the first probe / merge() again on the same Merger, judged against the inputs as they are then.'
 RULE += ' Round 5: comma-separated tables under the .tsv name; probes below the output directory; sequential recordings that only touch, listed non-chronologically; an output directory already holding the reversed merge.'
 RULE += ' Round 6: table rows for ids without spikes; probes with their own sampling rate; inputs carrying a channel_probe.npy; the same raw file name in every folder; merges of 9-11 probes.'
+RULE += ' Round 7: stale cluster_probes.npy in input folders; an earlier single-probe merge in the output folder; per-probe template precision; inputs already spread along x.'
 EXHAUSTIVE = {'quick': False, 'thorough': False}
 FLOORS = {'quick': {'evaluations': 950, 'distinct_nontrivial': 400},
           'thorough': {'evaluations': 15000, 'distinct_nontrivial': 6000}}
